@@ -175,6 +175,16 @@ def _rest_of_generate(ctx, rng):
     for n in ([0, 1, 2, 255, 256, 257, 512] if ctx.quick() else [0, 1, 2, 3, 127, 128, 255, 256, 257, 511, 512, 513, 768, 1024]):
         for opts in ([], [['-r', '1']], [['-k', 'A']]):
             yield {'fam': 'proc', 'n': n, 'opts': opts, 'queries': []}
+    # bridgepoint.consistency_check (the second command-line tool): main() against the statement evaluated on the loaded
+    # ooaofooa population, for option combinations; and as a process (exit status), also where the count is a multiple of 256
+    bp_opts = [[], [['-r', '8001']], [['-R', '25']], [['-k', 'S_SYNC']], [['-k', 'PE_PE']], [['-r', '8001'], ['-k', 'PE_PE']],
+               [['-r', '1']], [['-g']], [['-r', '8001'], ['-r', '25']], [['-k', 'S_DT'], ['-g']], [['-v']], [['-k', 'S_SYNC'], ['-k', 'PE_PE']]]
+    for n, dup in ((0, False), (1, False), (2, True), (3, False)) + (((64, True), (7, True)) if not ctx.quick() else ()):
+        for opts in bp_opts:
+            yield {'fam': 'bp', 'mode': 'main', 'n': n, 'dup': dup, 'opts': opts, 'queries': []}
+    for n, dup in ((0, False), (1, False), (64, True)) + (((128, True), (65, False), (192, True)) if not ctx.quick() else ()):
+        for opts in ([], [['-r', '1']], [['-k', 'S_SYNC']]) if n else ([], [['-g']]):
+            yield {'fam': 'bp', 'mode': 'proc', 'n': n, 'dup': dup, 'opts': opts, 'queries': []}
 
 
 # --------------------------------------------------------------------------- oracle
@@ -355,9 +365,119 @@ def run_proc(case):
             'stats': {'fam_proc': 1}, 'model_line': None}
 
 
+_BP_NULL = '"00000000-0000-0000-0000-000000000000"'
+
+
+def bp_text(n, dup):
+    """a BridgePoint model text: n functions (S_SYNC) lacking their packageable element and return type and repeating a
+    null second identifier, plus (dup) one packageable element stored twice"""
+    t = ''
+    for i in range(n):
+        t += 'INSERT INTO S_SYNC VALUES ("00000000-0000-0000-0000-%012d", %s, \'f%d\', \'\', \'\', %s, 1, \'\', 0, %d);\n' \
+             % (i + 1, _BP_NULL, i, _BP_NULL, i)
+    if dup:
+        for _ in range(2):
+            t += 'INSERT INTO PE_PE VALUES ("00000000-0000-0000-0001-000000000001", 1, %s, %s, 7);\n' % (_BP_NULL, _BP_NULL)
+    return t
+
+
+def bp_oracle(m, rels, kinds):
+    """the statement by comprehension over a loaded BridgePoint metamodel (any schema): violations in the selected parts"""
+    def assoc(rel):
+        n = 0
+        for a in m.associations:
+            if rel is not None and a.rel_id != rel:
+                continue
+            for link in (a.source_link, a.target_link):
+                for inst in link.from_metaclass.storage:
+                    c = len(link.get(inst, ()))
+                    if (c == 0 and not link.conditional) or (c > 1 and not link.many):
+                        n += 1
+        return n
+
+    def uniq(kind):
+        n = 0
+        for mcl in m.metaclasses.values():
+            if kind is not None and mcl.kind.upper() != kind.upper():
+                continue
+            types = dict(mcl.attributes)
+            rows = [dict((name, inst.__dict__.get(name)) for name in types) for inst in mcl.storage]
+            # referential attributes read through their link; take what the instance answers
+            for inst, row in zip(mcl.storage, rows):
+                for name in types:
+                    try:
+                        row[name] = getattr(inst, name)
+                    except Exception:
+                        row[name] = None
+            for row in rows:
+                for name in mcl.identifying_attributes:
+                    v = row[name]
+                    if v is None or (types[name].upper() == 'UNIQUE_ID' and not v):
+                        n += 1
+            for ident, attrs in mcl.indices.items():
+                keys = [frozenset((a, row[a]) for a in attrs) for row in rows]
+                seen = set()
+                for k in keys:
+                    if k in seen:
+                        n += 1
+                    seen.add(k)
+        return n
+    return (sum(assoc('R%d' % r) for r in rels) if rels else assoc(None)) + \
+           (sum(uniq(k) for k in kinds) if kinds else uniq(None))
+
+
+def run_bp(case):
+    """bridgepoint.consistency_check: main() in-process resp. `python -m bridgepoint.consistency_check` as a process"""
+    import subprocess
+    import sys
+    import logging
+    from bridgepoint import ooaofooa
+    import bridgepoint.consistency_check as bcc
+    text = bp_text(case['n'], case['dup'])
+    path = os.path.join(_ws_tmp, 'c11_bp_%d_%d_%d.xtuml' % (os.getpid(), case['n'], int(case['dup'])))
+    with open(path, 'w') as f:
+        f.write(text)
+    flat = [o for pair in case['opts'] for o in pair]
+    rels = [int(o[1]) for o in case['opts'] if o[0].lower() == '-r']
+    kinds = [o[1] for o in case['opts'] if o[0] == '-k']
+    fails = []
+    try:
+        loader = ooaofooa.Loader(load_globals=['-g'] in case['opts'])
+        loader.filename_input(path)
+        m = loader.build_metamodel()
+        want = bp_oracle(m, rels, kinds)
+        what = 'a BridgePoint model of %d dangling functions%s' % (case['n'], ' and a packageable element stored twice' if case['dup'] else '')
+        if case['mode'] == 'main':
+            root = logging.getLogger()
+            level = root.level
+            try:
+                got = bcc.main(flat + [path])
+            finally:
+                root.setLevel(level)
+            if got != want:
+                fails.append({'sig': 'bp-main-count', 'what': 'bridgepoint.consistency_check.main %s on %s reported %r, the model '
+                              'has %d violations in the selected parts' % (flat, what, got, want)})
+        else:
+            env = dict(os.environ)
+            env['PYTHONPATH'] = _repo_copy
+            p = subprocess.run([sys.executable, '-m', 'bridgepoint.consistency_check'] + flat + [path], env=env, cwd=_ws_tmp,
+                               stdout=subprocess.PIPE, stderr=subprocess.PIPE, timeout=300)
+            if (p.returncode != 0) != (want > 0):
+                fails.append({'sig': 'exit-status', 'what': 'python -m bridgepoint.consistency_check %s on %s (%d violation(s) in '
+                              'the selected parts) exited with status %d' % (flat, what, want, p.returncode)})
+    finally:
+        os.unlink(path)
+    return {'obs': [], 'd_fail': fails, 'nontrivial': want > 0, 'key': 'bp/%s/%d/%r/%r' % (case['mode'], case['n'], case['dup'], case['opts']),
+            'stats': {'fam_bp_' + case['mode']: 1, 'bp_violations_%s' % ('0' if want == 0 else '1-255' if want < 256 else
+                                                                          'multiple-of-256' if want % 256 == 0 else '256+'): 1},
+            'model_line': None}
+
+
 def run_impl(case):
     if case['fam'] == 'proc':
         return run_proc(case)
+    if case['fam'] == 'bp':
+        return run_bp(case)
     fails = []
     stats = {'fam_' + case['fam']: 1}
     if case['fam'] == 'load':
